@@ -1,4 +1,5 @@
 import Chain33Model.Model.C20
+import Chain33Model.Proofs.C20
 /-!
 C20 — Difficulty compact encoding round-trips and orders work.  Property theorems only.
 -/
@@ -30,5 +31,220 @@ theorem calcWork_nonneg (c : Nat) : 0 ≤ calcWork c := by
   by_cases h : compactToBig c ≤ 0
   · simp [h]
   · simp only [h, if_false]; exact Int.ediv_nonneg (by decide) (by omega)
+
+/-! ### re-compaction is canonical -/
+
+/-- For every 32-bit compact value, decoding the re-encoded value gives back the decoded value
+(proved by case analysis on the exponent and the byte length of the mantissa, both signs). -/
+theorem recompact_value (c : Nat) (_hc : c < 2 ^ 32) :
+    compactToBig (bigToCompact (compactToBig c)) = compactToBig c := by
+  have he : c / 2 ^ 24 % 256 ≤ 255 := by omega
+  have hm : c % 2 ^ 23 < 2 ^ 23 := Nat.mod_lt _ (by omega)
+  rw [compactToBig_eq c]
+  generalize c / 2 ^ 24 % 256 = e at *
+  generalize c % 2 ^ 23 = mant at *
+  rcases Nat.eq_zero_or_pos (dec e mant) with h0 | hpos
+  · rw [h0]
+    have z : compactToBig (bigToCompact 0) = 0 := by
+      unfold bigToCompact compactToBig; simp
+    split <;> simpa using z
+  · obtain ⟨hfit, hdvd⟩ := canon e mant he hm hpos
+    generalize dec e mant = a at *
+    have hcancel : a / 256 ^ lost a * 256 ^ lost a = a := Nat.div_mul_cancel hdvd
+    split
+    · rw [roundtrip_neg a hpos hfit ?_, hcancel]
+      intro h3
+      refine Nat.dvd_trans (Nat.pow_dvd_pow 256 ?_) hdvd
+      unfold lost; omega
+    · rw [roundtrip_pos a hpos hfit, hcancel]
+
+/-- `f = BigToCompact ∘ CompactToBig` is idempotent on all 2^32 compact values: `f c` is the
+canonical compact form of `c`. -/
+theorem recompact_idem (c : Nat) (hc : c < 2 ^ 32) :
+    bigToCompact (compactToBig (bigToCompact (compactToBig c))) = bigToCompact (compactToBig c) := by
+  rw [recompact_value c hc]
+
+/-- non-vacuity / a non-canonical input: 0x0500_0012 (exponent 5, mantissa 0x12) decodes to
+0x12_0000, whose canonical compact form is 0x0312_0000. -/
+example : compactToBig 0x05000012 = 0x120000 ∧ compactToBig 0x03120000 = 0x120000 := by
+  constructor <;> (unfold compactToBig; simp)
+
+/-! ### round trip of integers -/
+
+/-- The property as stated, for every non-negative integer: the round trip never increases the
+value and loses less than the bytes below the (23-bit, or 15-bit after the sign-bit shift) mantissa. -/
+def BigRoundtripFull : Prop :=
+  ∀ n : Int, 0 ≤ n →
+    compactToBig (bigToCompact n) ≤ n ∧
+    n - compactToBig (bigToCompact n) < 256 ^ (byteLen n.natAbs - 2)
+
+/-- `BigRoundtripFull` restricted to integers of at most 254 bytes (added hypothesis: the byte
+length, plus one when the sign-bit shift occurs, must fit the 8-bit exponent field). -/
+theorem big_roundtrip_partial (n : Int) (h0 : 0 ≤ n) (hL : byteLen n.natAbs ≤ 254) :
+    compactToBig (bigToCompact n) ≤ n ∧
+    n - compactToBig (bigToCompact n) < 256 ^ (byteLen n.natAbs - 2) := by
+  obtain ⟨a, rfl⟩ := Int.eq_ofNat_of_zero_le h0
+  have hab : (a : Int).natAbs = a := by simp
+  rw [hab] at hL ⊢
+  rcases Nat.eq_zero_or_pos a with h | ha
+  · subst h
+    have z : compactToBig (bigToCompact 0) = 0 := by unfold bigToCompact compactToBig; simp
+    simp [z, byteLen_zero]
+  · have hfit : byteLen a + bump (m0 a) ≤ 255 := by unfold bump; split <;> omega
+    have := roundtrip_pos a ha hfit
+    rw [show ((a : Nat) : Int) = Int.ofNat a from rfl, this]
+    have hp := pow256_pos (lost a)
+    have hle : a / 256 ^ lost a * 256 ^ lost a ≤ a := Nat.div_mul_le_self _ _
+    have hmono : 256 ^ lost a ≤ 256 ^ (byteLen a - 2) := Nat.pow_le_pow_right (by decide) (lost_le a)
+    have hmod : a - a / 256 ^ lost a * 256 ^ lost a < 256 ^ lost a := by
+      have := Nat.mod_lt a hp
+      have e := Nat.div_add_mod a (256 ^ lost a)
+      rw [Nat.mul_comm] at e
+      omega
+    have hcast : ((256 ^ (byteLen a - 2) : Nat) : Int) = (256 : Int) ^ (byteLen a - 2) := Int.natCast_pow _ _
+    rw [← hcast]
+    generalize a / 256 ^ lost a * 256 ^ lost a = r at *
+    generalize 256 ^ (byteLen a - 2) = Q at *
+    generalize 256 ^ lost a = P at *
+    show (r : Int) ≤ (a : Int) ∧ (a : Int) - (r : Int) < (Q : Int)
+    omega
+
+/-- non-vacuity: the difficulty-1 target of 0x1d00ffff (0xffff·256^26, 28 bytes) is in the range. -/
+example : ∃ n : Int, 0 ≤ n ∧ byteLen n.natAbs ≤ 254 ∧ 3 < byteLen n.natAbs := by
+  have h : byteLen (0xffff * 256 ^ 26) = 28 := by
+    rw [byteLen_mul_pow 0xffff 26 (by omega)]
+    have : byteLen 0xffff = 2 := by
+      rw [byteLen_pos 0xffff (by omega), byteLen_pos (0xffff / 256) (by omega)]
+      have : 0xffff / 256 / 256 = 0 := by omega
+      rw [this, byteLen_zero]
+    rw [this]
+  refine ⟨Int.ofNat (0xffff * 256 ^ 26), Int.natCast_nonneg _, ?_, ?_⟩ <;>
+    (rw [show (Int.ofNat (0xffff * 256 ^ 26)).natAbs = 0xffff * 256 ^ 26 from rfl, h]; omega)
+
+/-- Sharper bound when the top bit of the top byte is clear (no sign-bit shift): only the bytes
+below the top three are lost, and integers of at most three bytes are reproduced exactly. -/
+theorem big_roundtrip_sharp (n : Int) (h0 : 0 ≤ n) (hL : byteLen n.natAbs ≤ 255)
+    (htop : 2 * n.natAbs < 256 ^ byteLen n.natAbs) :
+    compactToBig (bigToCompact n) ≤ n ∧
+    n - compactToBig (bigToCompact n) < 256 ^ (byteLen n.natAbs - 3) ∧
+    (byteLen n.natAbs ≤ 3 → compactToBig (bigToCompact n) = n) := by
+  obtain ⟨a, rfl⟩ := Int.eq_ofNat_of_zero_le h0
+  have hab : (a : Int).natAbs = a := by simp
+  rw [hab] at hL htop ⊢
+  rcases Nat.eq_zero_or_pos a with h | ha
+  · subst h
+    have z : compactToBig (bigToCompact 0) = 0 := by unfold bigToCompact compactToBig; simp
+    simp [z, byteLen_zero]
+  · have hnb : ¬ 2 ^ 23 ≤ m0 a := by rw [bump_iff a ha]; omega
+    have hb0 : bump (m0 a) = 0 := by unfold bump; simp [hnb]
+    have hfit : byteLen a + bump (m0 a) ≤ 255 := by omega
+    have hlost : lost a = byteLen a - 3 := by unfold lost; omega
+    have := roundtrip_pos a ha hfit
+    rw [show ((a : Nat) : Int) = Int.ofNat a from rfl, this, hlost]
+    have hp := pow256_pos (byteLen a - 3)
+    have hcast : ((256 ^ (byteLen a - 3) : Nat) : Int) = (256 : Int) ^ (byteLen a - 3) := Int.natCast_pow _ _
+    rw [← hcast]
+    have hP1 : byteLen a ≤ 3 → 256 ^ (byteLen a - 3) = 1 := by
+      intro h3
+      have : byteLen a - 3 = 0 := by omega
+      rw [this]
+    clear htop hnb hb0 hfit hlost this hcast
+    generalize 256 ^ (byteLen a - 3) = P at *
+    have hle : a / P * P ≤ a := Nat.div_mul_le_self _ _
+    have hmod : a - a / P * P < P := by
+      have := Nat.mod_lt a hp
+      have e := Nat.div_add_mod a P
+      rw [Nat.mul_comm] at e
+      omega
+    have hex : byteLen a ≤ 3 → a / P * P = a := by
+      intro h3; rw [hP1 h3]; simp
+    generalize a / P * P = r at *
+    show (r : Int) ≤ (a : Int) ∧ (a : Int) - (r : Int) < (P : Int) ∧ (byteLen a ≤ 3 → (r : Int) = (a : Int))
+    refine ⟨by omega, by omega, ?_⟩
+    intro h3; have := hex h3; omega
+
+/-- non-vacuity of the hypotheses (any positive integer with a clear top bit, e.g. 1). -/
+example : ∃ n : Int, 0 ≤ n ∧ byteLen n.natAbs ≤ 255 ∧ 2 * n.natAbs < 256 ^ byteLen n.natAbs := by
+  have h1 : byteLen 1 = 1 := by
+    rw [byteLen_pos 1 (by omega)]
+    have : 1 / 256 = 0 := by omega
+    rw [this, byteLen_zero]
+  refine ⟨1, by omega, ?_, ?_⟩ <;> simp [h1]
+
+/-- The full statement is false of the code: for the 255-byte integer `2^2039` (top byte 0x80)
+the exponent after the sign-bit shift is 256, `uint32(exponent<<24)` wraps to 0, and the value
+decodes to 0 — the whole integer is lost, not only the bits below the mantissa. -/
+theorem big_roundtrip_full_false : ¬ BigRoundtripFull := by
+  intro h
+  have hbl : byteLen (128 * 256 ^ 254) = 255 := by
+    rw [byteLen_mul_pow 128 254 (by omega)]
+    have : byteLen 128 = 1 := by
+      rw [byteLen_pos 128 (by omega)]
+      have : 128 / 256 = 0 := by omega
+      rw [this, byteLen_zero]
+    rw [this]
+  have hm0 : m0 (128 * 256 ^ 254) = 2 ^ 23 := by
+    unfold m0
+    rw [hbl]
+    simp only [show ¬ 255 ≤ 3 by decide, if_false]
+  have henc : bigToCompact (Int.ofNat (128 * 256 ^ 254)) = 32768 := by
+    rw [bigToCompact_pos _ (Nat.mul_pos (by decide) (pow256_pos _)), hbl, hm0]
+    unfold enc; decide
+  have hdec : compactToBig 32768 = 0 := by unfold compactToBig; simp
+  have := (h (Int.ofNat (128 * 256 ^ 254)) (Int.natCast_nonneg _)).2
+  rw [henc, hdec] at this
+  have hab : (Int.ofNat (128 * 256 ^ 254)).natAbs = 128 * 256 ^ 254 := by simp
+  rw [hab, hbl] at this
+  have hcast : ((256 ^ (255 - 2) : Nat) : Int) = (256 : Int) ^ (255 - 2) := Int.natCast_pow _ _
+  rw [← hcast] at this
+  have hlt : (256 : Nat) ^ (255 - 2) < 128 * 256 ^ 254 := by
+    have : (256 : Nat) ^ 254 = 256 ^ 253 * 256 := by rw [← Nat.pow_succ]
+    rw [show 255 - 2 = 253 from rfl, this]
+    have := pow256_pos 253
+    omega
+  generalize (256 : Nat) ^ (255 - 2) = Q at *
+  generalize 128 * 256 ^ 254 = N at *
+  simp at this
+  omega
+
+/-! ### total difficulty -/
+
+/-- Appending blocks never decreases the total difficulty (sum of works). -/
+theorem td_monotone (chain ext : List Nat) : td chain ≤ td (chain ++ ext) := by
+  unfold td
+  induction chain with
+  | nil =>
+    simp only [List.nil_append, List.map_nil, List.foldr_nil]
+    induction ext with
+    | nil => simp
+    | cons b bs ih =>
+      simp only [List.map_cons, List.foldr_cons]
+      have := calcWork_nonneg b
+      omega
+  | cons c cs ih =>
+    simp only [List.cons_append, List.map_cons, List.foldr_cons]
+    omega
+
+/-- Block by block easier targets (larger target values) give a total difficulty that is not
+larger: fork choice by total work agrees with the encoded targets. -/
+theorem td_antitone (bs bs' : List Nat)
+    (hlen : bs.length = bs'.length)
+    (h : ∀ p ∈ bs.zip bs', 0 < compactToBig p.1 ∧ compactToBig p.1 ≤ compactToBig p.2) :
+    td bs' ≤ td bs := by
+  unfold td
+  induction bs generalizing bs' with
+  | nil =>
+    cases bs' with
+    | nil => simp
+    | cons _ _ => simp at hlen
+  | cons c cs ih =>
+    cases bs' with
+    | nil => simp at hlen
+    | cons c' cs' =>
+      simp only [List.map_cons, List.foldr_cons]
+      have hc := h (c, c') (by simp)
+      have := calcWork_antitone c c' hc.1 hc.2
+      have := ih cs' (by simpa using hlen) (fun p hp => h p (by simp [hp]))
+      omega
 
 end C20
